@@ -68,12 +68,18 @@ impl Check for C14 {
         rng.shuffle(&mut picks);
         for &i in picks.iter().take(rng.range(4, 8)) {
             let (n, class) = NAMES[i];
-            let rel = match rng.below(3) {
-                0 => format!("sub dir/{}", n),
-                1 => format!("d1/e1/{}", n),
-                _ => n.to_string(),
+            // directory names: plain, with a space, nested, with dots (a dotted directory is not an extension),
+            // named like a note file, hidden, non-ASCII
+            let (rel, dclass) = match rng.below(8) {
+                0 => (format!("sub dir/{}", n), ""),
+                1 => (format!("d1/e1/{}", n), ""),
+                2 => (format!("rel-1.0/{}", n), "+dir:dotted"),
+                3 => (format!("2024.01/w.x/{}", n), "+dir:dotted"),
+                4 => (format!("arch.md/{}", n), "+dir:md"),
+                5 => (format!("ünï dir/{}", n), "+dir:non-ascii"),
+                _ => (n.to_string(), ""),
             };
-            files.insert(rel, (format!("Title{}", i), class.to_string()));
+            files.insert(rel, (format!("Title{}", i), format!("{}{}", class, dclass)));
         }
         let mut linker = String::from("# Linker\n\n");
         for (rel, (title, _)) in &files {
@@ -110,7 +116,7 @@ impl Check for C14 {
         for (rel, (title, class)) in &files {
             let abs = base.join(format!("{}.md", rel));
             let uri = lsp_types::Url::from_file_path(&abs).unwrap().to_string();
-            let locus = if class == "md-md" { "name:md-md".to_string() } else { format!("base:{}+name:{}", bclass, class) };
+            let locus = if class.starts_with("md-md") { "name:md-md".to_string() } else { format!("base:{}+name:{}", bclass, class) };
             rep.shape(fnv(&locus));
             // (a) the URI addresses the loaded note
             rep.count("events", 1);
@@ -169,7 +175,7 @@ impl Check for C14 {
                 let ok = path.as_ref().map(|p| p.is_file()).unwrap_or(false);
                 if !ok {
                     let class = files.iter().find(|(_, (t, _))| name.ends_with(t.as_str())).map(|(_, (_, c))| c.clone()).unwrap_or_else(|| "linker".into());
-                    let locus = if class == "md-md" { "name:md-md".to_string() } else { format!("base:{}+name:{}", bclass, class) };
+                    let locus = if class.starts_with("md-md") { "name:md-md".to_string() } else { format!("base:{}+name:{}", bclass, class) };
                     rep.violate("response-uri-not-a-file", &locus, format!("symbol `{}` has uri {} -> {:?} which is not an existing file", name, sym["location"]["uri"], path), replay.clone());
                 }
             }
